@@ -1179,6 +1179,32 @@ func SpecRdbBuffered(r *memoryRdb) int64 { panic("abstract spec function") }
 //@ func log.Logger.Warnf(self, format, args)
 //@   trusted frame: logging does not change program state
 //@   modifies nothing
+// A start that found nothing stored (a "miss") is remembered so that the next start of the same
+// process need not scan the target again. That shortcut is sound only while this process has sent
+// no unit since: a unit the target committed leaves a journal record even if its reply never arrived.
+//   sentSeen   what the fast path learned about units sent since the miss (1: some were, or not asked)
+//   sentNoted  1 once the unit's transaction batcher has been handed out and the unit noted as sent
+//@ func RedisOutput.bisyncFrontierMissFastPath
+//@   arith int
+//@   properties C14
+//@   replay syncer_fastPathStaleJournal
+//@   ghost var sentSeen mathint = 1
+//@   requires nonnil: ro != nil
+//@   modifies heap, sentSeen
+//@   set sentSeen = ite(result, 1, 0) after call unitsSentSinceMiss
+//@   ensures a_cached_miss_is_trusted_only_while_no_unit_was_sent_since: result2 && result1 == 0 ==> sentSeen == 0
+//@ func client.Redis.NewTxnBatcher(self) (b)
+//@   trusted abstract target connection: a transaction batcher for it
+//@   modifies nothing
+//@ func RedisOutput.newBisyncTxnBatcher
+//@   arith int
+//@   properties C14
+//@   ghost var sentNoted mathint = 0
+//@   requires nonnil: ro != nil && conn != nil
+//@   modifies heap, sentNoted
+//@   set sentNoted = 1 at call noteBisyncUnitSent
+//@   ensures whoever_gets_a_transaction_batcher_for_a_unit_is_noted_as_sending: result1 == nil ==> sentNoted == 1
+
 //@ func RedisOutput.clearBisyncFrontierMiss
 //@   arith int
 //@   properties C14
